@@ -433,7 +433,7 @@ func r7ivAes(c *core.Ctx, R string) {
 		v := m.Load(fmt.Sprintf("%s[%d]", sl.Path, sl.Lo+i), nil)
 		if v.K != core.AInt {
 			// never written: zero when the object was allocated here
-			v = m.Load(fmt.Sprintf("%s[%d]", sl.Path, sl.Lo+i), types.Typ[types.Uint8])
+			v = m.Load(fmt.Sprintf("%s[%d]", sl.Path, sl.Lo+i), types8)
 		}
 		if v.K != core.AInt {
 			return nil
@@ -915,3 +915,5 @@ func r7mul64(c *core.Ctx, R string) {
 	}
 	c.Check(ok, R, "security.mul:product", fn.Pos(), "rst.j = XOR over i=0..63 of P.i and (MULx^i(V)).j", "MUL must xor MULxPOW(V,i,c) into the result for exactly the set bits i = 0..63 of P (%s)", detail)
 }
+
+var types8 = types.Typ[types.Uint8]
